@@ -19,6 +19,8 @@ pub enum Op {
     Le(Vec<u8>),
     Eq(Vec<u8>),
     Reset,
+    /// `cursor.into_reader().into_cursor()`: a brand-new cursor over the same reader
+    Reopen,
     Current,
 }
 
@@ -33,6 +35,7 @@ impl Op {
             Op::Le(q) => format!("LE({})", hex(q)),
             Op::Eq(q) => format!("EQ({})", hex(q)),
             Op::Reset => "reset".into(),
+            Op::Reopen => "into_reader.into_cursor".into(),
             Op::Current => "current".into(),
         }
     }
@@ -46,6 +49,7 @@ impl Op {
             Op::Le(_) => "LE",
             Op::Eq(_) => "EQ",
             Op::Reset => "reset",
+            Op::Reopen => "reopen",
             Op::Current => "current",
         }
     }
@@ -72,6 +76,32 @@ pub fn apply<R: Read + Seek>(c: &mut ReaderCursor<R>, op: &Op) -> Result<Option<
             Op::Eq(q) => own(c.move_on_key_equal_to(q).map_err(e)?),
             Op::Reset => {
                 c.reset();
+                None
+            }
+            Op::Reopen => {
+                // the cursor is moved out and a new one built from the reader it hands back; neither step
+                // does I/O or can fail short of a panic, which would leave `c` moved-out: abort in that case
+                struct AbortOnUnwind;
+                impl Drop for AbortOnUnwind {
+                    fn drop(&mut self) {
+                        if std::thread::panicking() {
+                            eprintln!("panic inside into_reader()/into_cursor(): aborting");
+                            std::process::abort();
+                        }
+                    }
+                }
+                let bomb = AbortOnUnwind;
+                unsafe {
+                    let old = std::ptr::read(c as *const ReaderCursor<R>);
+                    match old.into_reader().into_cursor() {
+                        Ok(new) => std::ptr::write(c as *mut ReaderCursor<R>, new),
+                        Err(er) => {
+                            eprintln!("into_cursor failed on a reader that had a cursor before: {}", er);
+                            std::process::abort();
+                        }
+                    }
+                }
+                std::mem::forget(bomb);
                 None
             }
             Op::Current => own(c.current()),
